@@ -193,6 +193,7 @@ def walk_invariant(H):
 
     H.ctx.loop_contracts[("SVGPath.walk", 0)] = Outer(H)
     H.ctx.loop_contracts[("SVGPath.walk", 2)] = Printer(H)
+    H.ctx.loop_contracts_any = [H.ctx.loop_contracts[("SVGPath.walk", 0)], H.ctx.loop_contracts[("SVGPath.walk", 2)]]
     res, e = H.catch(SVGPath.walk, path, callback)
     if e is not None:
         # only the arity check may raise, and only for a command with the wrong number of arguments
